@@ -62,7 +62,7 @@ def handle (j : Json) : Except String Json := do
   let flag (k : String) : Bool := match j.getObjVal? "fx" with
     | .ok o => (match o.getObjValAs? Bool k with | .ok b => b | .error _ => false)
     | .error _ => false
-  let fx : Fixes := { shared := flag "shared", repSeq := flag "repSeq", head10 := flag "head10", edc10 := flag "edc10" }
+  let fx : Fixes := { shared := flag "shared", repSeq := flag "repSeq", head10 := flag "head10", edc10 := flag "edc10", edcLoop := flag "edcLoop" }
   let M := mkCtx v11 n nodes infos defined fx
   let r := M.checkModel p
   let mJ := Json.mkObj (errJson' r.err ++ [
